@@ -273,7 +273,7 @@ func (mo *c20UDPMon) check(d []byte, class string) {
 		run.Violation(fmt.Sprintf("C20:udp-header|roundtrip|differs|atyp=%d", v.Atyp), det(map[string]any{"rebuilt_hex": c20Hex(b2),
 			"reparsed": map[string]any{"host": fmt.Sprintf("%q", o2.host), "port": o2.port, "payload_len": len(o2.payload)}}))
 	}
-	if v.Accept == c20Must || len(v.Domain) > 0 || v.Atyp != 0x03 {
+	if !bad && (v.Accept == c20Must || len(v.Domain) > 0 || v.Atyp != 0x03) {
 		v2 := c20RefUDP(b2)
 		run.Count("rebuilt_checked_by_reference", 1)
 		if v2.Accept != c20Must || !c20SameDest(v2.hostString(), v.hostString()) || v2.Port != v.Port || !bytes.Equal(v2.Payload, v.Payload) {
@@ -368,6 +368,17 @@ func TestVerifC20UDPHeader(t *testing.T) {
 		}
 	}
 	run.Count("grid_variants", int64(variants))
+	// names that are also IP literals (buildUDPHeader re-encodes them as ATYP 1/4), and
+	// the shortest well-formed datagrams of each type
+	for _, nm := range []string{"1.2.3.4", "::1", "0:0:0:0:0:0:0:1", "::ffff:1.2.3.4", "2001:db8::1", "a", "ab", "a.b", "xn--p1ai", "01.2.3.4", "1.2.3", "fe80::1%eth0", "[::1]", "1.2.3.4:53"} {
+		for _, pl := range []int{0, 1, 2, 3, 64} {
+			d := append([]byte{0, 0, 0, 3, byte(len(nm))}, nm...)
+			d = append(d, 0x00, 0x35)
+			d = append(d, vk.Pattern(7, 0, pl)...)
+			run.Count("extra_cases", 1)
+			mo.check(d, "extra|name="+nm)
+		}
+	}
 	run.Exhaustive(true)
 	// random part
 	rr := run.Rand("random")
